@@ -860,7 +860,9 @@ def run(ctx):
         evaluations=res["transitions"] + b_exec + d_exec,
         distinct_nontrivial=res["states"] + b_nontrivial + d["judging_scenarios"],
         rule="engine A: BFS over canonical states (allowed set; per tool name the declaration style and requirement of the "
-        "currently registered tool, in registration order; every engine attribute unknown to the harness) with every "
+        "currently registered tool, in registration order; the engine's whole instance state fingerprinted recursively by value "
+        "without naming any attribute, minus the numeric leaves / logs that tool-less requests change on a fresh engine, plus "
+        "the health the engine reports publicly) with every "
         "registration / re-registration / metabolize(text shape x pathway) / execute_tool_call / scripted LLM-loop operation "
         "applied in every reachable state; engine B: every answer sequence of the scripted provider (stop / t0 / t1 / unknown / "
         "two tools per round) after every (allowed set, t0 declaration, t1 declaration or none, t0 re-registration or none, "
@@ -891,7 +893,9 @@ def run(ctx):
         "max_ros=1e9: the ROS latch (which only ever refuses more) never engages within the explored depth",
         "a tool declaring DIFFERENT requirements in `required_capabilities` and `capabilities` is not modelled (the statement "
         "does not say which one is 'the' declaration); the same requirement in both is",
-        "hidden state outside Mitochondria.__dict__ (module globals, closures, the tool object) is not part of engine A's "
+        "activity statistics (numeric fields that requests involving no tool change: operation count, accumulated efficiency / "
+        "ROS, timings) are not part of engine A's canonical state - found by behaviour, not by name; validate_canon samples it",
+        "hidden state outside vars(engine) (module globals, closures, the tool object) is not part of engine A's "
         "canonical state; engine D therefore replays call / re-registration histories without any state merging",
         "a requirement given as a plain string is out of bounds for every allowed set of Capability members",
         "not asserted (the statement quantifies over registrations and calls only): changing a tool's declaration or the "
